@@ -319,10 +319,27 @@ def _apply_section(sec, head, it, data, s0, e0, what, edits, drop, tags_box, ret
             want = types[0].replace("<NL>", "\n").encode()
             types = types[1:]
             hits = [c_ for c_ in it["closures"] if data[c_["span"][0]:c_["span"][1]].startswith(want)]
-            if len(hits) != 1:
-                raise GenError(f"{what}: closure starting with `{want.decode()}` found {len(hits)} times")
-            c = hits[0]
-            k = it["closures"].index(c)
+            if len(hits) == 1:
+                c = hits[0]
+                k = it["closures"].index(c)
+                if _record_anchors is not None:
+                    _record_anchors.setdefault(what, {})[head] = ["closure", k, len(it["closures"])]
+            else:
+                # the closure text changed.  If the function still has as many closures as on the pristine tree, the closure at the
+                # recorded ordinal is "the same closure, edited"; when it is a one-expression predicate and the template contract
+                # is a pure characterisation (`ensures b == (..)`), the contract is DERIVED from the new body (`b == (BODY)`),
+                # so that the enclosing function is judged against what the closure now computes, not against what it used to.
+                ent = getattr(_tls, "anchor_map", {}).get(what, {}).get(head)
+                ok = ent is not None and ent[0] == "closure" and ent[2] == len(it["closures"]) and ent[1] < len(it["closures"])
+                c = it["closures"][ent[1]] if ok else None
+                simple = ok and not c["body_is_block"] and len(c["inputs"]) == 1 and " ret " in head \
+                    and re.fullmatch(r"\s*ensures\s+(\w+)\s*==\s*\(.*\),?\s*", body, re.S) is not None
+                if not simple:
+                    raise GenError(f"{what}: closure starting with `{want.decode()}` found {len(hits)} times")
+                k = ent[1]
+                bvar = re.match(r"\s*ensures\s+(\w+)", body).group(1)
+                body = f"        ensures {bvar} == ({data[c['body'][0]:c['body'][1]].decode()})"
+                _tls.fallback_notes_soft = getattr(_tls, "fallback_notes_soft", []) + [f"closure contract of '{head}' derived from the edited closure body"]
         else:
             k = int(w[1].rstrip(":"))
             if k >= len(it["closures"]):
